@@ -79,6 +79,7 @@ ImplOf(e) ==
     [] e.a = "CaughtUp" -> DoCaughtUp
     [] e.a = "Snapshot" -> DoSnapshot(SnapOrder)
     [] e.a = "Persist" -> DoPersist
+    [] e.a = "PersistWith" -> DoPersistWith(OpOf(e.args.o))
     [] e.a = "Restart" -> DoRestart
     [] e.a = "Restore" -> DoRestore
     [] e.a = "Finish" -> \E ord \in [GroupIds -> Perms(Tombs)] : DoFinish(ord)
